@@ -489,6 +489,8 @@ int verify_annotations(struct jls_rd_s *rd, const model_t *m, int sig, const ver
             case 5: t = exp[pick].ts - 1; break;
             default: t = exp[pick].ts + 1; break;
         }
+        /* the ends of the timestamp range: far before the first and far after the last annotation */
+        if (q >= 4 && rng_chance(r, 1, 10)) { static const int64_t ends[] = {INT64_MAX, INT64_MAX - 1, INT64_MIN, INT64_MIN + 1, INT64_MAX - 1000, INT64_MIN + 1000}; t = ends[rng_below(r, 6)]; }
         anno_coll_t k; memset(&k, 0, sizeof(k));
         size_t stop = rng_chance(r, 1, 4) ? (size_t) rng_range(r, 1, 3) : 0;
         k.stop_after = stop;
@@ -606,6 +608,8 @@ int verify_utc(struct jls_rd_s *rd, const model_t *m, int sig, const verify_opts
         int64_t from = x[pick] + rng_range(r, -1, 1);
         if (q == 0) from = x[0] - 5;
         if (q == 1) from = x[n - 1] + 1;
+        if (q == 2) from = rng_chance(r, 1, 2) ? INT64_MAX - (int64_t) rng_below(r, 3) : INT64_MAX - 1000;   /* the ends of the id range */
+        if (q == 3) from = rng_chance(r, 1, 2) ? INT64_MIN + (int64_t) rng_below(r, 3) : INT64_MIN + 1000;
         utc_coll_t k; memset(&k, 0, sizeof(k));
         v_api("jls_rd_utc");
         rc = jls_rd_utc(rd, (uint16_t) sig, from, utc_cbk, &k);
